@@ -43,6 +43,7 @@ def main():
     ap.add_argument("--needs", default="")
     ap.add_argument("--also", default="", help="other property ids whose checks should be run too")
     ap.add_argument("--skip-baseline", action="store_true")
+    ap.add_argument("--only-suite", action="store_true", help="re-run only the pinned-suite step and update meta.json")
     a = ap.parse_args()
     src = a.src or "/tmp/seed/%s-out/%s" % (a.pid, a.n)
     patch = os.path.join(src, "patch.diff")
@@ -89,6 +90,16 @@ def main():
             meta["suite_passes"] = rc == 0
             meta["ran"].append({"cmd": "baseline.py " + sel, "rc": rc, "out": out[-1500:], "wall_s": round(time.time() - t)})
             print("pinned suite (%s) rc=%d: %s" % (sel, rc, out.strip().split("\n")[0] if out.strip() else ""))
+        if a.only_suite:
+            oldp = os.path.join(VERIF, "seeded", name, "meta.json")
+            old = json.load(open(oldp))
+            old["suite_passes"] = meta.get("suite_passes")
+            old["ran"] = [r for r in old.get("ran", []) if "baseline.py" not in r["cmd"]] + [r for r in meta["ran"] if "baseline.py" in r["cmd"]]
+            old["confirmed"] = bool(old.get("builds") and old.get("suite_passes", True) and old.get("demo_passes_without")
+                                    and old.get("demo_fails_with"))
+            json.dump(old, open(oldp, "w"), indent=1)
+            print("suite re-run: passes=%s confirmed=%s" % (old["suite_passes"], old["confirmed"]))
+            return 0
         # 3. demonstration
         for s_, d_ in zip(a.demo_src, a.demo_dst):
             for wt in (wt0, wt1):
